@@ -1195,3 +1195,7 @@ Proof.
   - vm_compute. reflexivity.
   - vm_compute. reflexivity.
 Qed.
+
+(* the second checker on the two dumped objects *)
+Lemma hhx_checked2 : hhtfc_check2 hhx_usa_S hhx_usa_d = true /\ hhtfc_check2 hhx_t16_S hhx_t16_d = false.
+Proof. vm_compute. auto. Qed.
